@@ -646,6 +646,14 @@ func (s *Sim) NameGoroutine(name string) {
 	s.mu.Unlock()
 }
 
+// ActorName returns the name given to the calling goroutine by Go / NameGoroutine ("" if none).
+func (s *Sim) ActorName() string {
+	id := goid()
+	s.mu.Lock()
+	defer s.mu.Unlock()
+	return s.actors[id]
+}
+
 func (s *Sim) yield(site string) {
 	root := goid() == s.rootGoid
 	s.mu.Lock()
